@@ -99,8 +99,9 @@ Definition valid_geomb (g : geom) : bool :=
 (* FSI_Free_Count: 0xFFFFFFFF = unknown.  FSI_Nxt_Free: 0xFFFFFFFF = no hint; clusters 0
    and 1 do not exist, so they cannot be a hint either *)
 Definition spec_free (raw : N) : option N := if raw =? 4294967295 then None else Some raw.
-Definition spec_hint (raw : N) : option N :=
-  if raw =? 4294967295 then None else if raw <? 2 then None else Some raw.
+(* "... must be range checked for a valid cluster number" (FSI_Nxt_Free) *)
+Definition spec_hint (nclus raw : N) : option N :=
+  if raw =? 4294967295 then None else if raw <? 2 then None else if nclus + 2 <=? raw then None else Some raw.
 
 (* what a mounted volume must say, for given raw FS information fields *)
 Definition layout_with (g : geom) (free_raw next_raw : N) : volume :=
@@ -109,7 +110,7 @@ Definition layout_with (g : geom) (free_raw next_raw : N) : volume :=
     (g_reserved g)
     (if g_nfats g =? 2 then Some (g_reserved g + g_fat_size g) else None)
     (if is_fat32 g then spec_free free_raw else None)
-    (if is_fat32 g then spec_hint next_raw else None)
+    (if is_fat32 g then spec_hint (n_clusters g) next_raw else None)
     (n_clusters g)
     (if is_fat32 g then Fat32Info (g_root_cluster g) (g_lba g + g_fs_info g)
      else Fat16Info (g_reserved g + g_nfats g * g_fat_size g) (g_root_entries g)).
